@@ -46,7 +46,7 @@ ALLOWED = {
 
 def check(ctx):
     P = ctx.program
-    iters = (0, 1, 2) if ctx.tier == "thorough" else (0, 1)
+    iters = (0, 1)
     clock(ctx, P, iters)
     scan_rules(ctx, P)
     provenance(ctx, P)
